@@ -19,7 +19,7 @@ def genbdd_cfg(ctx, name, nv, mode, sample):
                  % (nv, mode, sample, ctx.seed % max(sample, 1)))
 
 
-def function_level_vectors(ctx, family):
+def function_level_vectors(ctx, family, extra=None):
     """spec -> impl: every transition of the function-level model (GenBdd.tla) replayed into real builders"""
     plan = [("u3", 3, "unary", 1), ("t2", 2, "ternary", 1)]
     if ctx.quick:
@@ -29,7 +29,7 @@ def function_level_vectors(ctx, family):
     for name, nv, mode, sample in plan:
         gen_and_replay(ctx, "GenBdd", genbdd_cfg(ctx, "GenBdd_" + name, nv, mode, sample), family,
                        "%s operations on %s functions of %d variables" % (mode, "all" if sample == 1 else "1/%d of the" % sample, nv),
-                       extra_replay=["--nv", nv, "--seed", ctx.seed], timeout=1500)
+                       extra_replay=["--nv", nv, "--seed", ctx.seed] + (extra or []), timeout=1500)
 
 
 def cnf_vectors(ctx, targets):
@@ -217,6 +217,9 @@ def C04(ctx):
     record_and_validate(ctx, [("sdd_wide_%d" % i, ["record", "sdd", "--mode", "wide", "--seed", ctx.seed * 1000 + i, "--segments", 1 if ctx.quick else 2,
                                                    "--nmax", 9]) for i in range(1 if ctx.quick else 6)], "TraceSdd", "TraceSdd_C04.cfg")
     stress_canonical(ctx, "sdd")
+    # spec -> impl, canonicity verdict only: among the results of the TLC-generated operations in one compressing builder (all vtrees of 3
+    # variables, wide vtrees over 70 / 160 labels, lifted 128-element nodes) the same function is the same pointer
+    function_level_vectors(ctx, "sddvec", extra=["--check", "canon"])
 
 
 def C05(ctx):
@@ -311,6 +314,11 @@ def C11(ctx):
         cfg = mkcfg(ctx, "GenStress_%d.cfg" % k, "SPECIFICATION Spec\nCONSTANTS\n  NV = 6\n  N = %d\n  Seed = %d\nCHECK_DEADLOCK FALSE\n" % (20000 if ctx.quick else 60000, ctx.seed + 10 * k))
         gen_and_replay(ctx, "GenStress", cfg, "stressvec", "%d pseudo-random 6-variable functions + and / or / neg in one semantic SDD builder per vtree" % (20000 if ctx.quick else 60000),
                        extra_replay=["--nv", 6], timeout=2400)
+    # very wide decision nodes (512 elements, lifted from 1 024 pairwise different TLC-printed 4-variable functions): cached SDD hash =
+    # fold-based SDD hash = hash of the same function built as a BDD, hash + hash of the negation = 1 (32-bit field twice, 64-bit field once;
+    # one field per builder)
+    gen_and_replay(ctx, "GenBdd", genbdd_cfg(ctx, "GenBdd_u4h", 4, "unary", 16), "sddvec", "hashes of lifted 512-element SDD nodes against the same functions as BDDs",
+                   extra_replay=["--nv", 4, "--seed", ctx.seed, "--check", "hash"], timeout=1500)
     n = 3 if ctx.quick else 16 * TH
     record_and_validate(ctx, [("table_bh_%d" % i, ["record", "table", "--byhash", "only", "--seed", ctx.seed * 1000 + i, "--segments", 25, "--len", 60])
                               for i in range(n)], "TraceTable", "TraceTable.cfg")
